@@ -161,7 +161,39 @@ func TestOrder(t *testing.T) {
 		if c.MaxAttempts < 2 {
 			c.MaxAttempts = 2 + rapid.IntRange(0, 2).Draw(t, "attempts2")
 		}
+		switch rapid.IntRange(0, 7).Draw(t, "extraStratum") {
+		case 0, 1:
+			c.LoggerDelayUs = rapid.SampledFrom([]int{100, 1000, 3000}).Draw(t, "loggerDelayUs")
+		case 2:
+			// the batch timer of a partial batch fires just when the same submitter fills the next batch
+			c.Async = true
+			c.BatchSize = rapid.IntRange(2, 3).Draw(t, "raceBatchSize")
+			c.BatchTimeoutMs = rapid.IntRange(2, 6).Draw(t, "raceTimeoutMs")
+			c.Balancer = "first"
+			c.Faults = nil
+			c.LoggerDelayUs = rapid.SampledFrom([]int{0, 500, 2000}).Draw(t, "raceLoggerDelayUs")
+			proto := c.Callers[0][0].Msgs[0]
+			proto.ForceTopic = ""
+			if !c.WriterTopic {
+				proto.Topic = c.Topics[0]
+			}
+			var calls []wsim.Call
+			for i := 0; i < 12; i++ {
+				jitter := rapid.IntRange(-400, 400).Draw(t, "jitterUs")
+				calls = append(calls, wsim.Call{Msgs: []wsim.Msg{proto}, DelayUs: 200})
+				full := make([]wsim.Msg, c.BatchSize)
+				for k := range full {
+					full[k] = proto
+				}
+				calls = append(calls, wsim.Call{Msgs: full, DelayUs: c.BatchTimeoutMs*1000 + jitter})
+			}
+			c.Callers = [][]wsim.Call{calls}
+			c.SettleMs = 500
+		}
 		labels, nt := check(t, c)
+		if c.LoggerDelayUs > 0 {
+			labels = append(labels, "slow_logger")
+		}
 		kinds := map[string]int{}
 		for _, f := range c.Faults {
 			kinds[f.Kind]++
